@@ -323,6 +323,14 @@ def generate(repo=None, out_dir=None):
     if pec_ok:
         need(all(sup_txt.index(_norm(p)) < i_l2 for p in pec_want), get,
              "solve(): PEC zeroing must precede the residual of the supplied field")
+    else:
+        # ordering anchor: PEC statements that still exist somewhere in the supplied-field branch but
+        # not as unconditional statements before the already-good-enough test (e.g. moved into an
+        # else branch) change which field the early exit certifies -> fail closed
+        nested = {_norm(ast.unparse(n)) for st in sup for n in ast.walk(st) if isinstance(n, ast.Assign)}
+        moved = [p for p in pec_want if _norm(p) in nested and _norm(p) not in sup_txt]
+        need(not moved, get, "solve(): PEC zeroing of a supplied field no longer precedes, unconditionally, "
+                             "the residual / already-good-enough test: " + moved[0] if moved else '')
     ge = sup[i_l2 + 1] if i_l2 + 1 < len(sup) else None
     need(isinstance(ge, ast.If) and not ge.orelse and i_l2 + 2 == len(sup), get,
          "solve(): already-good-enough test must directly follow the residual")
